@@ -1651,6 +1651,18 @@ static ssize_t uv__fs_write_all(uv_fs_t* req) {
       result = uv__fs_write(req);
     while (result < 0 && errno == EINTR);
 
+    if (result == 0 && req->nbufs < nbufs) {
+      /* A window of empty buffers writes 0 bytes; that is not "nothing more
+       * can be written" when buffers remain beyond the window. */
+      unsigned int i;
+      for (i = 0; i < req->nbufs && req->bufs[i].len == 0; i++) {}
+      if (i == req->nbufs) {
+        req->bufs += req->nbufs;
+        nbufs -= req->nbufs;
+        continue;
+      }
+    }
+
     if (result <= 0) {
       if (total == 0)
         total = result;
